@@ -177,3 +177,8 @@ Proof.
   - apply trains_nothing_hist_ok. repeat constructor.
   - apply trains_nothing_never_trains. repeat constructor.
 Qed.
+
+(* the scan of every method of PipelineBuilder finds no statement writing through a node object reached from the builder's node table
+   (nodes are shared with the pipeline modify() was called on and with every pipeline built from the builder) *)
+Lemma no_shared_node_writes_l : shared_node_writes = [].
+Proof. reflexivity. Qed.
